@@ -79,345 +79,13 @@ def is_record_type(e, env):
 
 
 class PathExec:
+    """(guards, actions, exit) summaries of a TlsRecordsParser method, from the semantic interpreter (analysis/defrag_sem.py)"""
     def __init__(self, F, f):
-        self.F = F
-        self.f = f
-        self.paths = []
+        self.F, self.f = F, f
 
     def run(self):
-        body = strip(self.f["hir"])
-        self.block(body, {}, (), (), None)
-        return self.paths
-
-    # cont: list of (stmts, tail, env) frames to continue with when a block falls through
-    def finish(self, guards, actions, exit_):
-        self.paths.append((guards, actions, exit_))
-
-    def block(self, blk, env, guards, actions, cont):
-        blk = strip(blk)
-        if blk["k"] != "block":
-            return self.tail(blk, env, guards, actions, cont)
-        self.stmts(blk["stmts"], 0, blk["expr"], dict(env), guards, actions, cont)
-
-    def stmts(self, stmts, i, tail, env, guards, actions, cont):
-        while i < len(stmts):
-            s = stmts[i]
-            i += 1
-            if s["k"] == "item":
-                continue
-            if s["k"] == "let":
-                init = strip(s["init"]) if s.get("init") else None
-                p = s["pat"]
-                if p["k"] == "bind" and init is not None:
-                    if is_record_type(init, env):
-                        env[p["id"]] = "record.type"
-                    elif init["k"] == "struct" and init["res"]["path"] == "tls_record::TlsRecordHeader":
-                        env[p["id"]] = self.pseudo_header(init)
-                    else:
-                        env[p["id"]] = ("hir", init)
-                    continue
-                actions = actions + ("Other(let %s)" % text(init),)
-                continue
-            e = strip(s["e"])
-            rest = (stmts, i, tail, env)
-            k = e["k"]
-            if k == "ret":
-                return self.exit(e["x"], env, guards, actions)
-            if k == "if":
-                return self.if_(e, env, guards, actions, rest, cont)
-            if k == "match" and is_try(e) is None:
-                return self.match(e, env, guards, actions, rest, cont, as_value=False)
-            a = self.action(e, env)
-            actions = actions + (a,)
-        if tail is None:
-            return self.resume(env, guards, actions, cont)
-        return self.tail(tail, env, guards, actions, cont)
-
-    def resume(self, env, guards, actions, cont):
-        if not cont:
-            return self.finish(guards, actions, "Value(())")
-        (stmts, i, tail, env2), cont2 = cont[0], cont[1:]
-        return self.stmts(stmts, i, tail, env2, guards, actions, cont2 or None)
-
-    def tail(self, e, env, guards, actions, cont):
-        e = strip(e)
-        k = e["k"]
-        if k == "ret":
-            return self.exit(e["x"], env, guards, actions)
-        if k == "if":
-            return self.if_(e, env, guards, actions, None, cont, tail=True)
-        if k == "match" and is_try(e) is None:
-            return self.match(e, env, guards, actions, None, cont, as_value=True)
-        if k == "block":
-            return self.block(e, env, guards, actions, cont)
-        if k == "tup" and not e["xs"]:
-            return self.resume(env, guards, actions, cont)
-        if cont:
-            # value of an inner block that is not the function result: unit-valued statements only
-            return self.resume(env, guards, actions + (self.action(e, env),), cont)
-        return self.exit(e, env, guards, actions)
-
-    def if_(self, e, env, guards, actions, rest, cont, tail=False):
-        pos, neg = self.cond(e["c"], env)
-        newcont = ([rest] if rest else []) + list(cont or [])
-        self.block(e["t"], env, guards + (pos,), actions, newcont or None)
-        if e.get("f") is not None:
-            self.block(e["f"], env, guards + (neg,), actions, newcont or None)
-        else:
-            self.resume(env, guards + (neg,), actions, newcont or None)
-
-    def match(self, e, env, guards, actions, rest, cont, as_value):
-        sc = strip(e["scrut"])
-        kind = self.parse_kind(sc, env)
-        if kind is None:
-            return self.finish(guards, actions + ("Other(match %s)" % text(sc),), "Other(unrecognised match)")
-        actions = actions + ("Parse(%s)" % kind,)
-        newcont = ([rest] if rest else []) + list(cont or [])
-        for oc in OUTCOMES:
-            chosen = None
-            for arm in e["arms"]:
-                env2 = dict(env)
-                if self.pmatch(arm["pat"], oc, env2):
-                    if arm.get("guard") is not None and not self.guard(arm["guard"], env2):
-                        continue
-                    chosen = (arm, env2)
-                    break
-            g = guards + ("parse(%s)=%s" % (kind, oc_str(oc)),)
-            if chosen is None:
-                self.finish(g, actions, "Other(no arm)")
-                continue
-            arm, env2 = chosen
-            self.block(arm["body"], env2, g, actions, newcont or None)
-
-    # ---- abstractions
-    def parse_kind(self, sc, env):
-        if sc["k"] == "call" and path_of(sc["f"]) == "tls_record::parse_tls_record_with_header" and len(sc["args"]) == 2:
-            a0, a1 = sc["args"]
-            if is_record_data(a0, env) and text(strip_ref(a1)) == "record.hdr":
-                return "data"
-            if is_self_field(a0, "record_defrag_buffer"):
-                h = strip_ref(a1)
-                hv = env.get(h.get("id")) if h.get("k") == "local" else None
-                if not isinstance(hv, str):
-                    hv = None
-                if hv == "pseudo_header(len=buf.len,..record.hdr)":
-                    return "buf"
-                return "buf,hdr=%s" % (hv or text(a1))
-            return "%s,%s" % (text(a0), text(a1))
-        return None
-
-    def pseudo_header(self, init):
-        fs = {f["name"]: strip(f["e"]) for f in init["fields"]}
-        base = init.get("base")
-        if set(fs) == {"len"} and base is not None and text(base) == "record.hdr":
-            l = fs["len"]
-            if l["k"] == "cast" and strip(l["x"])["k"] == "mcall" and strip(l["x"])["name"] == "len" and is_self_field(strip(l["x"])["recv"], "record_defrag_buffer"):
-                return "pseudo_header(len=buf.len,..record.hdr)"
-        return "header(%s)" % text(init)
-
-    def pmatch(self, p, oc, env):
-        k = p["k"]
-        if k == "wild":
-            return True
-        if k == "bind":
-            env[p["id"]] = ("outcome", oc)
-            return True
-        if k == "por":
-            for sp in p["pats"]:
-                e2 = dict(env)
-                if self.pmatch(sp, oc, e2):
-                    env.update(e2)
-                    return True
-            return False
-        if k == "ptuplestruct":
-            path = p["res"]["path"]
-            name = path.split("::")[-1]
-            if path.startswith("core::result::Result::"):
-                if name != oc[0]:
-                    return False
-                if name == "Ok":
-                    if p["pats"]:
-                        sp = p["pats"][0]
-                        if sp["k"] == "bind":
-                            env[sp["id"]] = ("okval",)
-                            return True
-                        return sp["k"] == "wild"
-                    return True
-                return self.pmatch(p["pats"][0], ("errinner", oc[1]), env) if p["pats"] else True
-            if path.startswith("nom::internal::Err::") and oc[0] == "errinner":
-                inner = oc[1]
-                if name != inner[0]:
-                    return False
-                if p["pats"]:
-                    sp = p["pats"][0]
-                    if sp["k"] == "bind":
-                        env[sp["id"]] = ("errval", inner[1] if len(inner) > 1 else None)
-                    elif sp["k"] != "wild":
-                        raise Unrec("error payload pattern")
-                return True
-        if k in ("pref", "pderef"):
-            return self.pmatch(p["pat"], oc, env)
-        raise Unrec("pattern " + k)
-
-    def guard(self, g, env):
-        g = strip(g)
-        if g["k"] == "bin" and g["op"] == "==":
-            a, b = strip(g["a"]), strip(g["b"])
-            if a["k"] == "field" and a["name"] == "code" and strip(a["x"]).get("k") == "local":
-                v = env.get(strip(a["x"])["id"])
-                kp = path_of(b)
-                if v and v[0] == "errval" and kp and kp.startswith("nom::error::ErrorKind::"):
-                    want = kp.split("::")[-1]
-                    return v[1] == want if want == "Complete" else (v[1] == "other" and False)
-        raise Unrec("arm guard " + text(g))
-
-    def cond(self, c, env):
-        c = strip(c)
-        neg = False
-        while c["k"] == "un" and c["op"] == "!":
-            neg = not neg
-            c = strip(c["a"])
-        pos_name = self.cond_class(c, env)
-        if pos_name.startswith("!"):
-            a, b = pos_name, pos_name[1:]
-        else:
-            a, b = pos_name, "!" + pos_name
-        return (b, a) if neg else (a, b)
-
-    def inline(self, e, env, depth=0):
-        """replace locals bound by `let x = <pure expr>` with that expression (copy-on-write)"""
-        if not isinstance(e, dict) or depth > 12:
-            return e
-        e2 = strip(e)
-        if e2.get("k") == "local":
-            v = env.get(e2["id"])
-            if isinstance(v, tuple) and v and v[0] == "hir":
-                return self.inline(v[1], env, depth + 1)
-            return e
-        out = dict(e)
-        for key in ("f", "recv", "a", "b", "x", "c"):
-            if isinstance(e.get(key), dict):
-                out[key] = self.inline(e[key], env, depth + 1)
-        if isinstance(e.get("args"), list):
-            out["args"] = [self.inline(a, env, depth + 1) for a in e["args"]]
-        return out
-
-    def cond_class(self, c, env):
-        c = strip(self.inline(c, env))
-        return self.cond_class0(c, env)
-
-    def cond_class0(self, c, env):
-        if c["k"] == "mcall" and c.get("path") == "tls_records_parser::TlsRecordsParser::defrag_in_progress" and text(c["recv"]) == "self":
-            return "in_progress"
-        if c["k"] == "mcall" and c["name"] in ("is_some", "is_none") and is_self_field(c["recv"], "current_record_type") and (c.get("path") or "").startswith("core::option::Option"):
-            return "in_progress" if c["name"] == "is_some" else "!in_progress"
-        if c["k"] == "bin" and c["op"] == "||":
-            parts = []
-            def flat(x):
-                x = strip(x)
-                if x["k"] == "bin" and x["op"] == "||":
-                    flat(x["a"]); flat(x["b"])
-                else:
-                    parts.append(x)
-            flat(c)
-            names = []
-            for p in parts:
-                if p["k"] == "bin" and p["op"] == "==" and is_record_type(p["a"], env) and (path_of(p["b"]) or "").startswith("tls_record::TlsRecordType::"):
-                    names.append(path_of(p["b"]).split("::")[-1])
-                else:
-                    return "cond(%s)" % text(c)
-            return "type in {%s}" % ",".join(sorted(names))
-        if c["k"] == "bin" and c["op"] in ("!=", "=="):
-            a, b = strip(c["a"]), strip(c["b"])
-            def some_rt(x):
-                return x["k"] == "call" and path_of(x["f"]) == "core::option::Option::Some" and is_record_type(x["args"][0], env)
-            if (some_rt(a) and is_self_field(b, "current_record_type")) or (some_rt(b) and is_self_field(a, "current_record_type")):
-                return "type_mismatch" if c["op"] == "!=" else "type_match"
-        if c["k"] == "bin" and c["op"] in (">=", ">", "<", "<=", "=="):
-            a, b = strip(c["a"]), strip(c["b"])
-            if b["k"] == "path" and "val" in b and a["k"] == "mcall" and a["name"] in ("saturating_add", "wrapping_add", "checked_add"):
-                ops = [strip(a["recv"]), strip(a["args"][0])]
-                def is_len_of_buf(x):
-                    return x["k"] == "mcall" and x["name"] == "len" and is_self_field(x["recv"], "record_defrag_buffer")
-                def is_len_of_data(x):
-                    return x["k"] == "mcall" and x["name"] == "len" and is_record_data(x["recv"], env)
-                if (is_len_of_buf(ops[0]) and is_len_of_data(ops[1])) or (is_len_of_buf(ops[1]) and is_len_of_data(ops[0])):
-                    return "too_large[%s,%d,%s]" % (c["op"], b["val"], a["name"])
-        return "cond(%s)" % text(c)
-
-    def action(self, e, env):
-        e = strip(e)
-        k = e["k"]
-        if k == "assign":
-            if is_self_field(e["a"], "current_record_type"):
-                b = strip(e["b"])
-                if b["k"] == "call" and path_of(b["f"]) == "core::option::Option::Some" and is_record_type(b["args"][0], env):
-                    return "SetType(Some(record.type))"
-                if path_of(b) == "core::option::Option::None":
-                    return "SetType(None)"
-                return "SetType(%s)" % text(b)
-            a = strip(e["a"])
-            if a["k"] == "un" and a["op"] == "*" and text(a["a"]) == "self":
-                b = strip(e["b"])
-                if b["k"] == "call" and (path_of(b["f"]) or "").endswith("Default::default") or (b["k"] == "call" and "default" in (path_of(b["f"]) or "")):
-                    return "ResetDefault"
-                return "AssignSelf(%s)" % text(b)
-            return "Other(assign %s)" % text(e)
-        if k == "mcall":
-            if is_self_field(e["recv"], "record_defrag_buffer"):
-                if e.get("path") == "alloc::vec::Vec::<T, A>::clear":
-                    return "Clear"
-                if e.get("path") == "alloc::vec::Vec::<T, A>::extend_from_slice" and is_record_data(e["args"][0], env):
-                    return "Extend(record.data)"
-                return "Buf.%s(%s)" % (e["name"], ",".join(text(a) for a in e["args"]))
-        if k == "if" or k == "match":
-            return "Other(nested %s)" % k
-        # explicit panics (assert!/debug_assert!/unreachable!/panic!)
-        for x in walk(e):
-            cp = path_of(x["f"]) if x.get("k") == "call" else None
-            if cp and cp.startswith("core::panicking::"):
-                return "Panic(%s)" % cp.split("::")[-1]
-        return "Other(%s)" % text(e)[:80]
-
-    def exit(self, x, env, guards, actions):
-        self.finish(guards, actions, self.exit_class(x, env))
-
-    def exit_class(self, x, env):
-        x = strip(x)
-        if x is None:
-            return "Value(())"
-        if x["k"] == "local":
-            v = env.get(x["id"])
-            if v and v[0] == "outcome":
-                return "Pass(result)"
-            return "Value(%s)" % x["name"]
-        if x["k"] == "call":
-            fp = path_of(x["f"])
-            if fp == "core::result::Result::Ok":
-                a = strip(x["args"][0])
-                if a["k"] == "local" and env.get(a["id"]) == ("okval",):
-                    return "Ok(pass)"
-                return "Ok(%s)" % text(a)
-            if fp == "core::result::Result::Err":
-                a = strip(x["args"][0])
-                if a["k"] == "local":
-                    v = env.get(a["id"])
-                    if v and v[0] == "errinner" or (v and v[0] == "outcome"):
-                        return "Pass(result)"
-                    return "Err(%s)" % a["name"]
-                if a["k"] == "call":
-                    ep = path_of(a["f"]) or ""
-                    if ep == "nom::internal::Err::Incomplete":
-                        return "Incomplete"
-                    if ep in ("nom::internal::Err::Error", "nom::internal::Err::Failure"):
-                        inner = strip(a["args"][0])
-                        if inner["k"] == "call" and len(inner["args"]) == 2:
-                            kp = path_of(inner["args"][1]) or ""
-                            if kp.startswith("nom::error::ErrorKind::"):
-                                return "%s(%s)" % (ep.split("::")[-1], kp.split("::")[-1])
-                return "Err(%s)" % text(a)
-        if x["k"] == "mcall" and x.get("path") == "tls_records_parser::TlsRecordsParser::parse_record_nocopy" and text(x["recv"]) == "self" and text(x["args"][0]) == "record":
-            return "Delegate(nocopy)"
-        if x["k"] == "mcall" and x["name"] == "is_some" and is_self_field(x["recv"], "current_record_type"):
-            return "Value(current_record_type.is_some())"
-        return "Other(%s)" % text(x)[:100]
+        from .defrag_sem import SemExec, Unrec as SUnrec
+        try:
+            return [(g, a, ex) for g, a, ex, _ty, _buf in SemExec(self.F, self.f).run()]
+        except SUnrec as u:
+            raise Unrec(str(u))
